@@ -17,7 +17,7 @@ func init() {
 		Assumptions: []string{
 			"MTU in {3,4,5,6,7,8,16,17,100}; unit types {1,5,7,8,9,12} (+6,23 in short sequences); sizes {2,3,MTU-1,MTU,MTU+1,2MTU+1}; bodies contain no zero byte (Annex-B conformant: no start-code emulation, no trailing zero); a final type-1 unit is appended so that held-back parameter sets have a next unit; a separate scenario sweeps SPS/PPS sizes so that STAP-A(SPS,PPS) is one byte under, exactly at and one byte over every MTU 9..40",
 			"the hold-back anomalies of H264Payloader for parameter sets that are not an SPS immediately followed by a PPS, and the silent drop of a STAP-A larger than the MTU, are listed known findings matched by an exact defect model of the hold-back state machine",
-			"wide scenario: every NAL type 1-23 x NRI 0-3 alone and after an SPS/PPS pair; units of 300, 257*(MTU-2)+1 (more than 256 fragments), 70000 bytes for MTU {5,100,1200}; all sequences of 5-6 units over {slice 2B, slice MTU+1, SPS+PPS pair} split over three calls",
+			"wide scenario: every NAL type 1-23 x NRI 0-3 alone and after an SPS/PPS pair; units of 300, 257*(MTU-2)+1 (more than 256 fragments), 70000 bytes for MTU {5,100,1200}; SPS/PPS of {6,255,256,257,700,32766} x {6,255,256,300,32765} bytes at MTU 1200 and 65535; all sequences of 5-6 units over {slice 2B, slice MTU+1, SPS+PPS pair} split over three calls",
 			"decoder side: F bit 0, FU-A trains of 2-4 fragments with every split point of units of up to 8 bytes",
 		},
 		Scenarios: []mc.Scenario{
@@ -420,10 +420,16 @@ func c10Decoder(c *mc.Ctx) {
 
 // c10Wide: dimensions the product scenario keeps small, taken one at a time.
 func c10Wide(c *mc.Ctx) {
-	kind := c.Pick(3)
+	kind := c.Pick(4)
 	avc := c.Bool()
 	disableStapA := c.Bool()
 	switch kind {
+	case 3: // large parameter sets: STAP-A size fields beyond 8 and 16 bits
+		mtu := mc.From(c, []int{1200, 65535})
+		a := mc.From(c, []int{6, 255, 256, 257, 700, 32766})
+		b := mc.From(c, []int{6, 255, 256, 300, 32765})
+		raw := [][]byte{ref.H264Unit(7, 3, a, 1), ref.H264Unit(8, 3, b, 2), ref.H264Unit(5, 2, 20, 3), ref.H264Unit(1, 2, 2, 0xEE)}
+		c10Core(c, mtu, disableStapA, avc, raw, []int{4, 3, 4, 3}, c.Pick(3))
 	case 0: // every type and NRI
 		typ := uint8(1 + c.Pick(23))
 		nri := uint8(c.Pick(4))
